@@ -70,4 +70,10 @@ static void verif_timespec_now(struct timespec *ts) { ts->tv_sec = 0; ts->tv_nse
 #define qb_log_thread_log_post verif_thread_post
 #define qb_util_timespec_from_epoch_get verif_timespec_now
 
+#ifdef VERIF_NO_MARKER
+/* input class of a unit variant: the expanded message holds no extended-information marker (QB_XC), so
+ * qb_do_extended takes its plain branch; the string search itself is not run */
+#undef strchr
+#define strchr(s, c) ((char *)0)
+#endif
 #include "log.c"
